@@ -8,7 +8,7 @@ from .front import Unsupported
 from .state import (SV, State, const_sv, truthy, shape, field_type, KIND, CLS, cls_in, new_list, new_dict,
                     new_exception, new_instance, alloc, elem_type, int_of, str_of, val_of)
 from . import spec as SP
-from .state import merge_states
+from .state import merge_states, sel_L
 
 
 class Outcome(object):
@@ -106,10 +106,22 @@ class ExecCore(object):
         if self.LAZY or getattr(self.contract, 'lazy_feasibility', False):
             return True     # no pruning: infeasible paths only produce vacuously true obligations
         self.feas_checks += 1
+        ms = getattr(self.contract, 'feas_ms', None) or self.FEAS_TIMEOUT_MS
         s = z3.Solver()
-        s.set('timeout', getattr(self.contract, 'feas_ms', None) or self.FEAS_TIMEOUT_MS)
+        s.set('timeout', ms)
         s.add(*st.pc)
-        return s.check() != z3.unsat
+        # the soft timeout is not honoured inside some sequence-solver loops: a watchdog interrupts the context
+        import threading
+        wd = threading.Timer(ms / 1000.0 * 4 + 1.0, z3.main_ctx().interrupt)
+        wd.daemon = True
+        wd.start()
+        try:
+            r = s.check()
+        except z3.Z3Exception:
+            r = z3.unknown
+        finally:
+            wd.cancel()
+        return r != z3.unsat
 
     def fork(self, st, cond, label=None):
         """-> (state where cond, state where not cond), None when infeasible"""
@@ -364,7 +376,7 @@ class ExecCore(object):
         ty = Ty.strip_opt(v.ty)
         if not isinstance(ty, (Ty.TTuple, Ty.TList)):
             raise Unsupported('unpacking a value of static type %r' % (v.ty,))
-        seq = st.L[va(v.term)]
+        seq = sel_L(st, va(v.term))
         outs = []
         if isinstance(ty, Ty.TTuple):
             if len(ty.ts) != n:
@@ -462,8 +474,8 @@ class ExecCore(object):
             ty = Ty.TList(Ty.ANY)
         if isinstance(ty, (Ty.TList, Ty.TTuple)):
             if isinstance(ty, Ty.TTuple):
-                return ('const', [SV(st.L[va(itv.term)][i], t) for i, t in enumerate(ty.ts)])
-            return ('seq', st.L[va(itv.term)], ty.t, [])
+                return ('const', [SV(sel_L(st, va(itv.term))[i], t) for i, t in enumerate(ty.ts)])
+            return ('seq', sel_L(st, va(itv.term)), ty.t, [])
         if isinstance(ty, (Ty.TDict, Ty.TSet)):
             a = va(itv.term)
             ks = fresh('keys', SeqVal)
@@ -546,7 +558,7 @@ class ExecCore(object):
                         if lspec.get('modifies') is not None:
                             self.loop_frame_obligations(h, e, lspec['modifies'], k)
                         if lspec.get('list_unchanged', True) and isinstance(Ty.strip_opt(itv.ty), Ty.TList):
-                            self.oblige(e, e.L[va(itv.term)] == seq, 'inv-keep[iterated-list-unchanged]@loop#%d' % k,
+                            self.oblige(e, sel_L(e, va(itv.term)) == seq, 'inv-keep[iterated-list-unchanged]@loop#%d' % k,
                                         'inv-keep')
                     elif o.kind == 'break':
                         o.st.env.pop(iname, None)
